@@ -463,8 +463,101 @@ pub fn real_case() -> impl Strategy<Value = RealCase> {
     (prop_oneof![4 => 1u32..=9, 2 => 10u32..=40, 1 => Just(64u32), 1 => Just(100u32)], prop::collection::vec(op, 0..120), prop::bool::weighted(0.3)).prop_map(|(entries, ops, overflow)| RealCase { entries, ops, overflow })
 }
 
+// "real-sqpoll": rings with a kernel submission thread (SQPOLL, idle time 5 ms). The application never hands
+// entries over itself: it flushes, looks once at needs_wakeup() and, if that says so, enters with SQ_WAKEUP -
+// the documented protocol. Between rounds it stays quiet for a generated time, so the thread is sometimes awake
+// and sometimes asleep. Oracle: every flushed submission (NOPs stamped with a sequence number) is consumed and
+// completes exactly once, in order, within a deadline no correct run comes near.
+#[derive(Debug, Clone, Serialize, Deserialize)]
+pub struct SqpollCase {
+    pub entries: u32,
+    /// per round: submissions (clamped to the ring), quiet time in ms before the round
+    pub rounds: Vec<(u8, u8)>,
+}
+
+fn check_real_sqpoll(c: &SqpollCase) -> CaseResult {
+    use rusl::io_uring::{io_uring_enter, setup_io_uring};
+    use rusl::platform::IoUringEnterFlags;
+    use std::time::{Duration, Instant};
+    let mut rep = CaseReport::new();
+    let mut ring = match crate::runner::catch(|| setup_io_uring(c.entries, IoUringParamFlags::IORING_SETUP_SQPOLL, 0, 5)) {
+        Ok(Ok(r)) => r,
+        // not permitted here: nothing to judge
+        Ok(Err(_)) => return Ok(rep),
+        Err((loc, msg)) => crate::fail!(format!("setup_io_uring|panic|{loc}"), "{msg}"),
+    };
+    let sq_entries = c.entries.next_power_of_two();
+    let fd = ring.fd;
+    let mut seq = 0u64;
+    let mut wakes = 0u32;
+    let mut slept_rounds = 0u32;
+    for (round, &(k, quiet_ms)) in c.rounds.iter().enumerate() {
+        if quiet_ms > 0 {
+            std::thread::sleep(Duration::from_millis(u64::from(quiet_ms)));
+        }
+        let k = u32::from(k).clamp(1, sq_entries);
+        let first = seq;
+        for _ in 0..k {
+            // everything of the earlier rounds has completed, so the kernel has consumed it: a slot must be there
+            let slot = no_panic("IoUring::get_next_sqe_slot", || ring.get_next_sqe_slot().map(|p| p as usize))?;
+            let Some(p) = slot else {
+                crate::fail!("real-sqpoll|get_next_sqe_slot|none-while-free", "round {round}: None although every earlier submission has completed ({} of {sq_entries} slots filled in this round)", seq - first);
+            };
+            unsafe {
+                core::ptr::write_bytes(p as *mut u8, 0, 64);
+                ((p + 32) as *mut u64).write(0x5EED_5000_0000 + seq);
+            }
+            seq += 1;
+        }
+        no_panic("IoUring::flush_submission_queue", || ring.flush_submission_queue())?;
+        // store(tail) ; full barrier ; load(flags) - the barrier is the caller's job
+        core::sync::atomic::fence(core::sync::atomic::Ordering::SeqCst);
+        let woke = no_panic("IoUring::needs_wakeup", || ring.needs_wakeup())?;
+        if woke {
+            wakes += 1;
+            match no_panic("io_uring_enter", || io_uring_enter(fd, 0, 0, IoUringEnterFlags::IORING_ENTER_SQ_WAKEUP))? {
+                Ok(_) => {}
+                Err(e) => crate::fail!("real-sqpoll|io_uring_enter|error", "round {round}: io_uring_enter(fd, 0, 0, SQ_WAKEUP) failed: {e}"),
+            }
+        }
+        slept_rounds += u32::from(woke && quiet_ms >= 15);
+        // the completions of this round, in order
+        let t0 = Instant::now();
+        let mut want = first;
+        while want < seq {
+            match no_panic("IoUring::get_next_cqe", || ring.get_next_cqe().map(|e| (e.0.user_data, e.0.res)))? {
+                Some((ud, res)) => {
+                    ensure!(ud == 0x5EED_5000_0000 + want && res == 0, "real-sqpoll|completion|wrong", "round {round}: completion (user_data {ud:#x}, res {res}), the next submission the kernel was given is {:#x}: a submission was lost, repeated or reordered on its way to the kernel", 0x5EED_5000_0000 + want);
+                    want += 1;
+                }
+                None => {
+                    if t0.elapsed() > Duration::from_secs(6) {
+                        crate::fail!(format!("real-sqpoll|never-consumed|{}", if woke { "after the wake-up the protocol asks for" } else { "needs_wakeup() said the thread is awake" }), "round {round} on an SQPOLL ring of {sq_entries} slots (idle 5 ms, {quiet_ms} ms of quiet before the round): {} of {k} submissions flushed 6 s ago have not completed (next {:#x}); needs_wakeup() after the flush was {woke}{}", seq - want, 0x5EED_5000_0000 + want, if woke { ", io_uring_enter(fd, 0, 0, IORING_ENTER_SQ_WAKEUP) returned Ok" } else { "" });
+                    }
+                    std::thread::sleep(Duration::from_micros(50));
+                }
+            }
+        }
+    }
+    let extra = no_panic("IoUring::get_next_cqe", || ring.get_next_cqe().map(|e| e.0.user_data))?;
+    ensure!(extra.is_none(), "real-sqpoll|completion|extra", "a completion (user_data {:#x}) beyond the {seq} submissions", extra.unwrap_or(0));
+    let _ = crate::runner::catch(move || drop(ring));
+    rep.nontrivial_if(wakes > 0 && c.rounds.len() >= 2);
+    rep.class_if(wakes > 0, "submission-thread-woken-by-the-protocol");
+    rep.class_if(slept_rounds > 0, "round-after-15-ms-of-quiet-needed-a-wakeup");
+    rep.class_if(wakes < c.rounds.len() as u32, "round-found-the-thread-awake");
+    Ok(rep)
+}
+
+fn sqpoll_case() -> impl Strategy<Value = SqpollCase> {
+    (prop_oneof![3 => 1u32..=8, 1 => Just(16u32), 1 => Just(33u32)], prop::collection::vec((1u8..=16, prop_oneof![3 => Just(0u8), 2 => 1u8..=4, 3 => 15u8..=30]), 1..6)).prop_map(|(entries, rounds)| SqpollCase { entries, rounds })
+}
+
 pub fn run(ctx: &Ctx) {
     ctx.run_prop("ring", ctx.cases(6000, 250_000), ring_case(), check_ring);
+    if ctx.is_replay() || real_available() {
+        ctx.run_prop("real-sqpoll", ctx.cases(60, 1500), sqpoll_case(), check_real_sqpoll);
+    }
     // the real kernel, on rings produced by setup_io_uring
     if ctx.is_replay() || real_available() {
         ctx.run_prop("real", ctx.cases(1500, 40_000), real_case(), check_real);
